@@ -56,6 +56,14 @@ func (r *Run) Oracles() []Violation {
 			if g, busy := open[e.Pub]; !busy || g != e.Goid {
 				add("hook-interleave", "publisher %d: block hook called by goroutine %d for ad %d outside its own session (session open: %v by %d)", e.Pub, e.Goid, e.Ad, busy, g)
 			}
+			// each hook sees exactly its own blocks: entries blocks go to the scoped hook of
+			// the entries sync that is running them, advertisements to the general hook
+			switch {
+			case e.Ent && (e.Via == 0 || e.Via != e.Tid+1):
+				add("hook-misdelivered", "publisher %d: entries block %d reported by thread %d went to hook %d (0 = the general hook, t+1 = scoped hook of entries sync t)", e.Pub, e.Ad, e.Tid, e.Via)
+			case !e.Ent && e.Via != 0:
+				add("hook-misdelivered", "publisher %d: advertisement %d reported by thread %d went to the scoped hook of entries sync %d", e.Pub, e.Ad, e.Tid, e.Via-1)
+			}
 		}
 	}
 
@@ -70,6 +78,20 @@ func (r *Run) Oracles() []Violation {
 
 	if !r.ObsQuiescent {
 		return out
+	}
+
+	// every announce-triggered sync that was made to fail (500 or stalled publisher) is
+	// reported by an error event
+	for _, f := range r.FailedAsync {
+		found := false
+		for _, ev := range r.ObsEvents {
+			if ev.Pub == f.Pub && ev.Head == f.Head && ev.Err {
+				found = true
+			}
+		}
+		if !found {
+			add("failed-sync-not-reported", "publisher %d: the announce-triggered sync of head %d failed (injected) but no error SyncFinished for it was delivered (events %v)", f.Pub, f.Head, r.ObsEvents)
+		}
 	}
 
 	// 4. events: every event the subscriber emitted, in order (compared with the model by
@@ -101,7 +123,7 @@ func (r *Run) Oracles() []Violation {
 	for p := 0; p < r.Cfg.NPub; p++ {
 		count := map[int]int{}
 		for _, e := range r.Raw {
-			if e.Point == YHook && e.Pub == p {
+			if e.Point == YHook && e.Pub == p && !e.Ent {
 				count[e.Ad]++
 			}
 		}
@@ -126,6 +148,22 @@ func (r *Run) Oracles() []Violation {
 		}
 		if len(missing) > 0 {
 			add("missing-report", "publisher %d: latest sync is %d but ads %v were never reported to the block hook", p, r.ObsLatest[p], missing)
+		}
+	}
+	// every entries sync that ran reported exactly its chain, in order, to its own hook
+	for t, th := range r.M.Threads {
+		if th.Kind != KEntries || th.PC != Fin || !th.Ok {
+			continue
+		}
+		var got []int
+		for _, e := range r.Raw {
+			if e.Point == YHook && e.Ent && e.Via == t+1 {
+				got = append(got, e.Ad)
+			}
+		}
+		want := desc(th.Msg, th.Msg)
+		if fmt.Sprint(got) != fmt.Sprint(want) {
+			add("entries-hook-incomplete", "publisher %d: the scoped hook of entries sync %d saw blocks %v, its chain is %v", th.Pub, t, got, want)
 		}
 	}
 	return out
@@ -155,18 +193,20 @@ func (r *Run) CoqCase() string {
 		fmt.Fprintf(&b, "%d", l)
 	}
 	b.WriteString("] [")
-	first := true
-	for _, e := range r.Raw {
-		if e.Point != YHook {
-			continue
+	for _, ent := range []bool{false, true} {
+		first := true
+		for _, e := range r.Raw {
+			if e.Point != YHook || e.Ent != ent {
+				continue
+			}
+			if !first {
+				b.WriteString("; ")
+			}
+			first = false
+			fmt.Fprintf(&b, "(%d, %d, %d)", e.Tid, e.Pub, e.Ad)
 		}
-		if !first {
-			b.WriteString("; ")
-		}
-		first = false
-		fmt.Fprintf(&b, "(%d, %d, %d)", e.Tid, e.Pub, e.Ad)
+		b.WriteString("] [")
 	}
-	b.WriteString("] [")
 	for i, ev := range r.ObsEvents {
 		if i > 0 {
 			b.WriteString("; ")
